@@ -57,6 +57,8 @@ PROP = {
         "capacity-short calls must return the documented failure value (0 / false); whether bytes inside the given capacity are touched on failure is not asserted",
         "hex round trips use delimiters that contain no hex digit; RawDataToHexStr lengths are <= 65535 (uint16_t parameter)",
         "appendPOD/fetchPOD are called with 1..16 bytes (size 0 makes the big-endian path form `p + (0 - 1)`, a UBSan pointer-overflow report without any memory access; no property claims UB-freedom)",
+        "Serializer on a non-empty std::vector: modelled as the unmodified code behaves - writing starts at index 0 and every append call resizes the vector to pos()+need, so from the first append call on the vector holds exactly the serialised bytes (size()==pos()); before the first call it is untouched (not asserted)",
+        "raw back end: bytes of the caller's buffer beyond pos() are never modified (checked against a shadow copy of a dirty buffer)",
         "float/double wire format is compared as the IEEE bit pattern in the selected byte order (host is little-endian)",
         "shift, nonnull-attribute and unsigned-integer-overflow UBSan checks are off (MD5 shifts uint8_t << 24)",
         "md5_long needs ~600 MiB of address space per case; if calloc fails the case is skipped",
